@@ -37,7 +37,9 @@ class Func:
 
 
 class FrameChecker:
-    def __init__(self, root="/repo/jinns", pkg="jinns"):
+    def __init__(self, root=None, pkg="jinns"):
+        from vf.paths import REPO
+        root = root or (REPO + "/jinns")
         self.funcs, self.by_name, self.bases, self.imports, self.classes = {}, {}, {}, {}, {}
         self.module_state = {}
         for dp, _, files in os.walk(root):
